@@ -1,25 +1,21 @@
 prop("C15",
-     level_text="PARTIAL proof. Proved in Lean 4 for ALL prior kernel states, clusters and policy sets: `frame_foreign` "
-                "(full strength: a full sync, and every step the event handlers are composed of, leaves every non-GLX "
-                "chain, every rule of FORWARD/INPUT/OUTPUT other than the documented base jumps, and every non-GLX "
-                "ipset exactly as it was) and `policy_chains_exact_partial` (a policy batch that reports no failure "
-                "installs exactly the compiled GLX-PLCY-* chains from ANY prior table), `pod_chain_exact_partial` (per "
-                "SyncPodChains call), `ipset_entries_exact_partial` (one createIPSet step of the CURRENT source leaves "
-                "exactly the compiled entries incl. options from any prior content; the pre-fix variant is "
-                "`full_sync_counter_d21`, D21 fixed in /repo d42b414 and followed through the regenerated fact "
-                "`createIPSetKeepsRekeyedEntries`), `no_dangling_policy_batch_partial` (syncRules can only fail as busy -X "
-                "or create type clash). The full exactness / "
-                "idempotence / no-dangling statements are FALSE for the code: `full_sync_exact_counter_d13`, "
-                "`full_sync_counter_d17` (each replayed against the real PolicyManager over strict fakes; known "
-                "findings D13, D17). End-state exactness of pod chains after the loop over the pods, idempotence of the "
-                "whole state and the no-dangling clause for pod batches are NOT proved; they are monitored on the real "
-                "dumps of generated histories (prior states = outputs of other cluster states + junk + foreign rules; "
-                "restart / periodic resync / one event per changed object / UPDATE transitions on a live manager: "
-                "option-only change of a set member, except added / removed, peer moved between cidr and except, pod "
-                "relabelled, last policy deleted, one failing `ipset create` for each set position from an empty kernel "
-                "and with existing chains), clause 4 judged at SUBMISSION time by inspecting every batch / command "
-                "against the kernel state whether or not the fake rejects it, including the flow verdicts of the final "
-                "rules vs those of a from-scratch sync.",
+     level_text="Proof under explicit hypotheses + full frame clause. Proved in Lean 4 for ALL prior kernel states: "
+                "`frame_foreign` (full strength, also per event-handler step); `policy_chains_exact_partial`; "
+                "`no_dangling_policy_batch_partial` (syncRules can only fail as busy -X or create type clash); "
+                "`ipset_entries_exact` (after syncRules of the current source every compiled set exists with the compiled type "
+                "and exactly the compiled entries incl. options, stale unreferenced GLX sets destroyed; from any prior sets "
+                "with one element per key; excluded: one key under two options, `ipset_entries_counter_key_clash`); "
+                "`pods_loop_exact` (end state of the loop over ALL local pods = exactly the compiled pod chains and hooks, "
+                "by a frame lemma per SyncPodChains call + induction over the pod list, under the hypothesis `PriorPods` "
+                "= what D13 violates; `pods_loop_counter_d13`); `full_sync_exact_under_hypotheses` and "
+                "`full_sync_idempotent_under_hypotheses` (whole owned state: policy chains, pod chains, hooks, ipsets; "
+                "second sync reports no failure and changes nothing); `no_dangling_pod_batch` (+ "
+                "`pod_batch_counter_failed_policy_sync`). The unconditional statements are FALSE for the code: "
+                "`full_sync_exact_counter_d13`, `full_sync_counter_d17` (known findings D13, D17, and the cascade "
+                "pod-batch-after-failed-policy-sync); D21 fixed (`full_sync_counter_d21` is about the pre-fix variant). "
+                "All four clauses are also monitored on the real dumps of generated histories (restart / periodic resync "
+                "/ events / UPDATE transitions / injected ipset-create failures per set position), clause 4 at "
+                "submission time, including flow verdicts vs a from-scratch sync.",
      level_note="the sync model (`syncRules`/`syncPods`/`fullSync` over strict primitive semantics at the level of "
                 "structured rules) is hand-written; every sync step of the real code over harness/nf is compared with it "
                 "starting from the REAL prior dump (post-state and failure classes must be equal); the strict iptables / "
